@@ -477,3 +477,38 @@ func verifH_C06_form_encodings() {
 	verifAssert((verr == nil) == (uint64(n) <= maxItems), "C06 form encodings: the request is accepted exactly when the decoded array satisfies maxItems")
 	verifReach("end")
 }
+
+//verif:harness id=C06 tier=quick,thorough witness=end bounds="multipart bodies with a part the schema does not declare: object schema {s: string} with additionalProperties absent / true / false / {type: string, maxLength 1}; body = part s and a part zz of one or two characters: as for any object, the undeclared member is allowed unless additionalProperties forbids it or its schema rejects the value"
+func verifH_C06_multipart_undeclared() {
+	obj := &openapi3.Schema{Type: &openapi3.Types{"object"}, Properties: openapi3.Schemas{"s": {Value: &openapi3.Schema{Type: &openapi3.Types{"string"}}}}}
+	ap := verifChoose("ap", 4)
+	one := uint64(1)
+	switch ap {
+	case 1:
+		t := true
+		obj.AdditionalProperties.Has = &t
+	case 2:
+		f := false
+		obj.AdditionalProperties.Has = &f
+	case 3:
+		obj.AdditionalProperties.Schema = &openapi3.SchemaRef{Value: &openapi3.Schema{Type: &openapi3.Types{"string"}, MaxLength: &one}}
+	}
+	zz := []string{"a", "ab"}[verifChoose("zz", 2)]
+	body := "--XX\r\nContent-Disposition: form-data; name=\"s\"\r\n\r\nv\r\n" +
+		"--XX\r\nContent-Disposition: form-data; name=\"zz\"\r\n\r\n" + zz + "\r\n--XX--\r\n"
+	rb := &openapi3.RequestBody{Required: true, Content: openapi3.Content{"multipart/form-data": &openapi3.MediaType{Schema: &openapi3.SchemaRef{Value: obj}}}}
+	op := &openapi3.Operation{RequestBody: &openapi3.RequestBodyRef{Value: rb}}
+	input := verifBodyInput(op, "multipart/form-data; boundary=XX", body, true, &Options{})
+	err := ValidateRequestBody(context.Background(), input, rb)
+	want := true
+	switch ap {
+	case 2:
+		want = false
+	case 3:
+		want = len(zz) <= 1
+	}
+	verifKnown("C06-multipart-undeclared-part-refused", want && (ap == 0 || ap == 3))
+	verifAssert((err == nil) == want, "C06 multipart undeclared: an undeclared part is judged by additionalProperties like any undeclared member")
+	verifKnown("C06-multipart-undeclared-part-refused", false)
+	verifReach("end")
+}
